@@ -79,10 +79,12 @@ class World:
         self.frames = []             # request log: (name, owner pkt idx or None, args)
         self.pkts = [Pkt(i, k) for i, k in enumerate(params["kinds"])]
         self.last_confirm = None
-        self.left = {"busy": len(RETRY_DELAYS), "refuse": 1, "cfail": 1, "ftag": 1, "fdest": 1, "dup": 1, "unsol": 1, "early": 1, "T": 2, "cancel": 1, "miss": 1}
+        self.left = {"busy": len(RETRY_DELAYS), "refuse": 1, "cfail": 1, "ftag": 1, "fdest": 1, "dup": 1, "unsol": 1, "early": 1, "T": 2, "cancel": 1, "miss": 1, "stale": 1}
         self.left.update(params.get("budget", {}))
         self.ended = False
         self.aps_seq = 0x30
+        for _ in range(params.get("seq_prior", 0)):     # an application that has already handed out this many sequence numbers:
+            app.get_sequence()                          # the message tags of the run straddle the wrap of the 8-bit sequence
         for p in self.pkts:
             self._start(p)
         self.loop.settle()
@@ -337,6 +339,13 @@ class World:
                 out.append((("T",), 0))
             else:
                 out.append((("end",), 0))
+        if L["stale"] > 0 and not self.queue:
+            # a successful confirmation carrying a request's own destination and tag while the NCP has only ever answered "busy" to it
+            # (the request is in its back-off): a stale duplicate from 256 messages ago.  It cannot stand in for the NCP's acceptance.
+            for p in live:
+                if p.is_unicast and p.tag is not None and p.accepted_at is None and p.confirm is None and p.sends and all(x.startswith("busy") for _, x in p.sends):
+                    out.append((("confirm-own-during-backoff", p.idx), 1))
+                    break
         if L["dup"] > 0 and self.last_confirm is not None:
             out.append((("confirm-duplicate",), 1))
         if L["unsol"] > 0:
@@ -394,6 +403,11 @@ class World:
             L["fdest"] -= 1
             p = self.pkts[label[1]]
             self._confirm(0xFFFC if label[2] == 6 else 0x7777, p.tag, True, mtype=label[2])
+        elif k == "confirm-own-during-backoff":
+            L["stale"] -= 1
+            p = self.pkts[label[1]]
+            p.confirm = (self.loop.time(), True)
+            self._confirm(p.addr, p.tag, True)
         elif k == "confirm-duplicate":
             L["dup"] -= 1
             self._confirm(*self.last_confirm)
@@ -550,6 +564,9 @@ def param_list(tier):
         if tier != "quick":
             for kinds in (("U", "S", "M"), ("X", "S", "B"), ("S", "X", "U2")):
                 out.append({"version": v, "kinds": list(kinds)})
+        # message tags 255 and 0: the application's sequence number wraps between the two packets
+        for kinds in ((("U", "U2"), ("S", "X")) if tier == "quick" else pairs):
+            out.append({"version": v, "kinds": list(kinds), "seq_prior": 254})
     return out
 
 
